@@ -8,7 +8,8 @@
    implementation by the msg / msgparts correspondence and the values oracle. *)
 From Coq Require Import String.
 From Coq Require Import NArith ZArith List Bool.
-From Cose Require Import Lib.Base Lib.Cbor Lib.CborProofs Model.GoVal Model.CborGo Model.Wire Model.MsgLogic Model.Msg Model.MsgProofs Model.MsgRoundTrip Model.ValueRoundTrip Model.MsgRoundTripFull.
+From Cose Require Import Lib.Base Lib.Cbor Lib.CborProofs Model.GoVal Model.CborGo Model.Wire Model.MsgLogic Model.Msg Model.MsgProofs Model.MsgRoundTrip Model.ValueRoundTrip Model.MsgRoundTripFull
+     Lib.Hex Lib.HexProofs Model.Text Model.TextProofs.
 Import ListNotations.
 
 (* ---- the authenticated byte strings are re-emitted as received *)
@@ -123,3 +124,30 @@ Theorem C09_read_back_accessors : forall m l, NoDup (map fst m) -> forallb (fun 
   /\ get_string (read_back m) l = get_string m l /\ get_bool (read_back m) l = get_bool m l /\ has (read_back m) l = has m l.
 Proof. exact read_back_accessors. Qed.
 Print Assumptions C09_read_back_accessors.
+
+(* ---- text and JSON forms (ByteStr, CoseMap, Key): lower-case hex of the CBOR bytes, quoted for JSON *)
+Theorem C09_bytestr_text_roundtrip : forall b, bytestr_of_text (bytestr_text b) = Ok b.
+Proof. exact bytestr_text_roundtrip. Qed.
+Print Assumptions C09_bytestr_text_roundtrip.
+
+Theorem C09_bytestr_json_roundtrip : forall cur b, bytestr_of_json cur (bytestr_json b) = Ok b.
+Proof. exact bytestr_json_roundtrip. Qed.
+Print Assumptions C09_bytestr_json_roundtrip.
+
+(* distinct byte strings have distinct texts; an accepted text re-encodes to its lower-case form *)
+Theorem C09_bytestr_text_injective : forall a b, bytestr_text a = bytestr_text b -> a = b.
+Proof. exact bytestr_text_inj. Qed.
+Print Assumptions C09_bytestr_text_injective.
+Theorem C09_bytestr_text_canonical : forall t b, bytestr_of_text t = Ok b -> bytestr_text b = map lower t.
+Proof. exact bytestr_text_canonical. Qed.
+Print Assumptions C09_bytestr_text_canonical.
+
+(* a map or key written as text or JSON decodes exactly as its CBOR bytes do (so C09_cosemap_roundtrip applies to all three forms) *)
+Theorem C09_cosemap_text_as_cbor : forall m bs, enc_cosemap m = Some bs ->
+  exists t, cosemap_text m = Some t /\ cosemap_of_text t = cosemap_of_bytes bs.
+Proof. exact cosemap_text_as_cbor. Qed.
+Print Assumptions C09_cosemap_text_as_cbor.
+Theorem C09_cosemap_json_as_cbor : forall m bs, enc_cosemap m = Some bs ->
+  exists t, cosemap_json m = Some t /\ cosemap_of_json t = cosemap_of_bytes bs.
+Proof. exact cosemap_json_as_cbor. Qed.
+Print Assumptions C09_cosemap_json_as_cbor.
